@@ -308,7 +308,7 @@ def run_case(ctx):
     sig2 = {**sig, "int_time": float(t.c.time).is_integer(),
             "aniso": len({round(v, 12) for v in t.m.dx[0]}) > 1}
     # the checkpoint stores no cell sizes: (hi - lo) / n is their definition, up to rounding
-    common.check_output_plotfile(ctx, sig2, out, expect, minmax="true", rtol=rt, dx_rtol=1e-12)
+    common.check_output_plotfile(ctx, sig2, out, expect, minmax="true", rtol=rt, dx_rtol=1e-12, bounds_rtol=1e-12)
     c = t.c
     multi = any(len({f for f, _ in lay}) >= 2 for lay in c.layouts["state"])
     if multi or c.mesh.nlev > 1 or c.layouts["state"] != c.layouts["gradp"]:
